@@ -137,14 +137,16 @@ def run(ctx):
             f = t.get('f') or {}
             if (f.get('path') or '').endswith('encode::write::Write::write_all') and not f.get('resolved'):
                 callers.add(inst['path'])
-    allowed = {l1.ENC + 'put', '<&mut W as minicbor::encode::write::Write>::write_all'}
+    # the funnel is whichever single inherent method of Encoder<W> hands bytes to the sink (today `put`); its name does not matter
+    fwd = '<&mut W as minicbor::encode::write::Write>::write_all'
+    funnels = sorted(c for c in callers if c.startswith(l1.ENC) and '::{' not in c)
     for c in sorted(callers):
-        if c in allowed:
+        if c == fwd or (len(funnels) == 1 and c == funnels[0]):
             ctx.ok('F-PUT', c)
         else:
-            ctx.violation('F-PUT', c, 'calls Write::write_all on the sink directly; every encoded byte must pass Encoder::put')
-    if l1.ENC + 'put' not in callers:
-        ctx.fail_closed('F-PUT', 'Encoder::put no longer calls Write::write_all (anchor moved)')
+            ctx.violation('F-PUT', c, 'calls Write::write_all on the sink directly; every encoded byte must pass the single write funnel of Encoder (%s)' % (', '.join(funnels) or 'none found'))
+    if not funnels:
+        ctx.fail_closed('F-PUT', 'no method of Encoder calls Write::write_all (anchor moved)')
     return ('Complete cell->bytes tables of the %d Encoder methods were extracted from MIR by value-range analysis and compared '
             'term by term with the RFC 8949 preferred serialisation for all argument values at once.' % n_methods)
 
